@@ -1407,10 +1407,15 @@ class MessageBuilder:
             and len(original.args) == 3
             and original.args[2] == override
         ):
-            self.note(f'Consider declaring "{name}" in {target} without "async"', context)
+            self.note(
+                f'Consider declaring "{name}" in {target} without "async"',
+                context,
+                code=codes.OVERRIDE,
+            )
             self.note(
                 "See https://mypy.readthedocs.io/en/stable/more_types.html#asynchronous-iterators",
                 context,
+                code=codes.OVERRIDE,
             )
 
     def override_target(self, name: str, name_in_super: str, supertype: str) -> str:
